@@ -5,11 +5,13 @@ from mirsym.models import load_all
 from mirsym.explore import run_vc
 spec = importlib.import_module("specs." + sys.argv[1])
 M = load_all()
-prog = Program(spec.CRATE)
+progs = {}
 sel = sys.argv[2] if len(sys.argv) > 2 else None
 for vc in spec.vcs('quick'):
     if sel and sel not in vc.name: continue
     t0 = time.time()
+    if vc.crate not in progs: progs[vc.crate] = Program(vc.crate)
+    prog = progs[vc.crate]
     r = run_vc(prog, M, vc, path_limit=int(sys.argv[3]) if len(sys.argv) > 3 else 20000)
     print(f"{vc.name}: paths={r.paths} infeasible={r.infeasible} outcomes={r.outcomes} queries={r.queries} viol={len(r.violations)} unsup={len(r.unsupported)} wit={r.witness} twin={r.twin_failed} solver={r.solver_calls}/{r.solver_time:.1f}s wall={r.wall:.1f}s")
     for u in r.unsupported[:3]: print("   UNSUPPORTED", u[0], u[2][-6:] if u[2] else '')
